@@ -150,7 +150,11 @@ func (g *ExprGen) Gen(typ string, depth int) string {
 			return "(" + g.Gen("int", depth-1) + g.sp() + g.R.Pick([]string{"<<", ">>"}) + g.sp() + g.R.Pick([]string{"0", "1", "2", "3"}) + ")"
 		case 11:
 			n := g.R.Range(2, 4)
-			return g.fn("Choose") + "(" + fmt.Sprint(g.R.Range(1, n)) + "," + g.args("int", n, depth-1) + ")"
+			sel := fmt.Sprint(g.R.Range(1, n))
+			if g.R.Bool(0.15) {
+				sel = g.R.Pick([]string{"-1", "9", "0 - 2"}) // a selector out of range: the function fails (a recovered runtime panic or an error)
+			}
+			return g.fn("Choose") + "(" + sel + "," + g.args("int", n, depth-1) + ")"
 		case 12:
 			return "(" + g.Gen("int", depth-1) + g.sp() + g.kw(g.R.Pick([]string{"AND", "OR", "XOR"})) + g.sp() + g.Gen("int", depth-1) + ")"
 		default:
